@@ -380,6 +380,31 @@ def check_property(pid, tier, repo, scratch, seed):
                     inconclusive.append(dict(f, why='an obligation in the cone failed, but on the real code the change is shown to break other properties only (%s); no failing input for this property among 4000 histories: undecided'
                                              % ','.join(sorted(set(t for o in others for t in o.get('tags', []))))))
                 new_fail = []
+        if new_fail and not concrete.get('found'):
+            # No failing input on the real code.  Obligations come in two kinds: contract-level ones (a postcondition, the
+            # precondition of a call / an index / an arithmetic operation at a line of /repo code, one of the crate's own
+            # assertions, a Kani or bounded check, an assertion tagged with this property) and proof-internal ones (an assert,
+            # a lemma call or a loop-invariant clause of the overlay, written for the previous text of the function).  When
+            # only proof-internal obligations of an edited function fail, the proof is out of date - that alone does not say the
+            # code is wrong: undecided.
+            def proof_internal(f):
+                if f.get('concrete_input') or (f.get('function') or '').startswith(('kani::', 'regression', 'panic injection')):
+                    return False
+                texts = ' '.join([f.get('site_text') or ''] + [x.get('text') or '' for x in f.get('sites', [])])
+                if ('// ' + pid) in texts:
+                    return False
+                k = f.get('kind', '')
+                if 'invariant not satisfied' in k:
+                    return True
+                if 'postcondition not satisfied' in k:
+                    return False
+                so = f.get('site_origin') or []
+                return bool(so) and so[0] == 'A'
+            if all(proof_internal(f) for f in new_fail):
+                for f in new_fail:
+                    inconclusive.append(dict(f, why='the proof of the edited function no longer goes through (only proof-internal obligations failed); '
+                                                    'no contract-level obligation failed and no failing input was found on the real code: undecided'))
+                new_fail = []
         if concrete.get('found') and not new_fail:
             # an undecided obligation plus a concrete failing input for this property on the real code: a violation
             new_fail = [dict(x) for x in inconclusive if x.get('function')][:3] or [{'function': None, 'kind': 'undecided obligation', 'site_text': ''}]
